@@ -40,7 +40,7 @@ def handle (toks : List String) (impl : Option String) : Option (String × Strin
       | ["fault.trunc", arch, _src, _doc, _k] =>
         if a == "skip" then "ok"
         else if a == "terminate" then "bad:terminate"
-        else if arch == "mp" || arch == "mpvec" || arch == "mpx" || arch == "mptup" then
+        else if arch == "mp" || arch == "mpvec" || arch == "mpx" || arch == "mptup" || arch == "mpbin" then
           (if isExc a then "ok" else "bad:truncated_MessagePack_document_accepted")
         else if isOkOrExc a then "ok" else "bad:abnormal_outcome"
       | ["fault.alloc", _sc, _k] =>
